@@ -9,7 +9,7 @@ Definition pk (cat pf pn : string) (iuse use : option string) (b d r p : dfile) 
   MkPkg (bs cat) (bs pf) (bs pn) (bs "00000")
         (match iuse with Some s => Some (bs s) | None => None end) None
         (match use with Some s => Some (bs s) | None => None end) b d r p.
-Definition no_obs : obs := MkObs RFailed RFailed RFailed RFailed.
+Definition no_obs : obs := MkObs RFailed RFailed RFailed RFailed RFailed.
 Definition simple_fs (lines : list string) : pfs :=
   [(bs "/r/p/base", PDir (Some (map bs lines)) None);
    (bs "/r/etc/portage/make.profile", PLink (bs "../../p/base"))].
